@@ -258,9 +258,14 @@ namespace sse
         void digest(u64 d)
         {
             digests.push_back(d);
-            if (digests.size() > (1u << 20))
+            if (digests.size() > compact_at)
+            {
                 compact();
+                // keep the amortised cost linear when more than the limit are distinct
+                compact_at = std::max<std::size_t>(compact_at, 2 * digests.size());
+            }
         }
+        std::size_t compact_at = std::size_t(1) << 20;
         void compact()
         {
             std::sort(digests.begin(), digests.end());
